@@ -15,7 +15,7 @@ import (
 
 // BFSJob is sent to workers.
 type BFSJob struct {
-	Hist []int `json:"h"`
+	Hist []int  `json:"h"`
 	Tier string `json:"tier,omitempty"`
 }
 
@@ -27,7 +27,7 @@ type BFSViol struct {
 
 // BFSOut is a worker's answer.
 type BFSOut struct {
-	Key      string           `json:"key"`           // state identity after the history
+	Key      string           `json:"key"`             // state identity after the history
 	NoExpand bool             `json:"noexp,omitempty"` // do not expand this state (dead end, halted chain)
 	Viol     []BFSViol        `json:"viol,omitempty"`
 	Info     map[string]int64 `json:"info,omitempty"` // counters, summed by the master
